@@ -51,6 +51,12 @@ def enumerate_cases(tier):
             yield dict(kind='values', name=name, r=rats[i:i + 64], rs=rats_s[i:i + 64])
         for i in range(0, len(pows), 67):
             yield dict(kind='values', name=name, r=pows[i:i + 67])
+    # the documented optional argument eps (regularisation of removable singularities) must not change the limiter anywhere:
+    # explicit values, dyadic ones included (singular point +- eps is then representable)
+    for name in LIMITERS:
+        for eps in (1e-8, 2.0 ** -20, 2.0 ** -40, 1e-3):
+            near = [s + t * eps for s in (-3.0, -2.0, -1.0, -0.5, 0.0, 0.5, 1.0, 2.0) for t in (-1.0, 0.0, 1.0)]
+            yield dict(kind='values', name=name, r=near + rats[::7], eps=eps)
     # TVD on all small integer fields
     for gname in ('Grid1D', 'CylindricalGrid1D', 'SphericalGrid1D'):
         for N in (1, 2, 3):
@@ -169,7 +175,7 @@ def check(case):
     k = case['kind']
     if k == 'values':
         name = case['name']
-        FL = pf.fluxLimiter(name)
+        FL = pf.fluxLimiter(name) if case.get('eps') is None else pf.fluxLimiter(name, eps=case['eps'])
         res.units = len(case['r'])
         _check_values(res, name, FL, case['r'])
         one = float(np.asarray(FL(np.array([1.0])))[0])
